@@ -83,9 +83,8 @@ ENGINES = [
 
 def main():
     have = set()
-    reg = open(os.path.join(ROOT, "harness", "src", "main.rs")).read()
     for k in P:
-        if f'prop!("{k}"' in reg:
+        if os.path.exists(os.path.join(ROOT, "harness", "src", "bin", k.lower() + ".rs")):
             have.add(k)
     checks = []
     na = []
